@@ -19,6 +19,7 @@ type File struct {
 	off      int
 	plan     Plan
 	ci       int // chunk index
+	di       int // delay index
 	zeros    int // consecutive zero reads delivered
 	atEOF    bool
 	isDir    bool
@@ -274,6 +275,15 @@ func (f *File) Read(p []byte) (int, error) {
 		return 0, nil
 	}
 	f.stat.Reads++
+	if len(f.plan.DelaysUs) > 0 {
+		// a slow source: the reader waits (simulated time) before this read returns
+		d := f.plan.DelaysUs[f.di%len(f.plan.DelaysUs)]
+		f.di++
+		if d > 0 {
+			journal.DelayedReads++
+			Sleep(time.Duration(d) * time.Microsecond)
+		}
+	}
 	if f.plan.ErrNo != "" && f.off >= f.plan.ErrAfter {
 		if f.errReads == 0 {
 			journal.Faults = append(journal.Faults, "read:"+f.plan.ErrNo+":"+f.name)
